@@ -6,7 +6,31 @@ props = [json.loads(l) for l in open(os.path.join(ROOT, 'properties.jsonl'))]
 BASE = json.load(open('/root/.vp/BASELINE.json'))['cmd'] if os.path.exists('/root/.vp/BASELINE.json') else "cd /repo && go test ./..."
 
 # id -> (engine, category, technique, level text, level note, design ref)
+E3NOTE = "Sequentially consistent interleavings at synchronisation granularity (locks, channels, select, WaitGroup, go statements, injected file-system effect points); atomics and un-instrumented dependencies (zapx, bbolt, roaring) execute atomically between scheduling points; timers never fire; exploration is exhaustive up to the stated deviation bound, not beyond. The source rewrite is regenerated from /repo's current tree on every run."
 CHECKS = {
+ "C03": ("E3-sched", "fault_enumeration",
+         "stateless schedule exploration (deviation-bounded DFS under a cooperative scheduler) + exhaustive crash-image and torn-file enumeration with real recovery",
+         "For every schedule of the batch workload within the deviation bound (safe mode, aggressive merging, unsafe_batch with 2 persister workers and persisted callbacks), the index directory is captured at every file-system / durability effect boundary of persist, merge, purge and removal (every occurrence; one scenario also at every rendezvous and lock point) with all other threads parked = the exact image of a process kill there. Every distinct image and every damage pattern {absent, empty, half, garbage} over zap files that no committed snapshot names is recovered by the real bleve.Open and must equal prefix state S_q with acked ≤ q ≤ submitted, then accept two more batches, close cleanly and reopen.",
+         E3NOTE + " bbolt commit atomicity is trusted; power loss of un-synced writes to referenced files is not modelled.",
+         "DESIGN.md §5 C03"),
+ "C04": ("E3-sched", "model_checking",
+         "stateless model checking of the implementation: deviation-bounded DFS over all interleavings under a controlled cooperative scheduler",
+         "Five closed drivers (two writers ∥ reader with a held index reader; writer ∥ reader+searcher under a merge plan forcing file merges; writer ∥ reader ∥ ForceMerge; unsafe batches with two persister workers; upsidedown/gtreap) run the real bleve/scorch code, mechanically rewritten so that every lock, channel operation, select, go statement and WaitGroup goes through a scheduler; ALL schedules with ≤1 deviation from the default schedule (thorough: ≤2 on the rendezvous/spawn/select/fs/root-lock class) are executed. In every execution every read is checked: one view = one whole-batch prefix per writer, not older than acknowledged batches, per-client monotonic, held readers immutable.",
+         E3NOTE, "DESIGN.md §5 C04"),
+ "C11": ("E3-sched", "model_checking",
+         "stateless model checking of the implementation: deviation-bounded DFS over all interleavings under a controlled cooperative scheduler",
+         "A family of closed drivers (every unordered pair of public operations ∥ Close, selected triples, context cancellation; scorch on disk and upsidedown) explored over all schedules within the deviation bound. Scheduler verdicts give panic-, deadlock- and livelock-freedom; the closed-index contract (calls started after Close returned report closed, a second Close included; calls overlapping Close complete or report closed; after Close no scorch goroutine stays alive; cancelled search returns promptly and leaves the index usable) is evaluated in every execution.",
+         E3NOTE + " The data-race clause is NOT decided by this technique (a scheduler switching at synchronisation points cannot see unsynchronised accesses); see DESIGN.md §6.",
+         "DESIGN.md §5 C11"),
+ "C12": ("E3-sched", "model_checking",
+         "stateless model checking of the implementation with an invariant monitor evaluated at every file-system effect boundary / scheduling point",
+         "Writer ∥ long-lived reader (∥ CopyTo) ∥ persister/merger/purger with forced file merges, all schedules within the deviation bound. Safety monitor (all other threads parked): every file named by a committed bolt snapshot, by the current root or by a reader still held exists. Liveness at quiescence: disk zap files = files named by recorded snapshots, epochs ≤ keep+1, no growth over 8 idle rounds, no descriptor left after Close.",
+         E3NOTE + " scorch-internal views are read through a build-time export file (overlay/index+scorch/verif_export.go).",
+         "DESIGN.md §5 C12"),
+ "C14": ("E3-sched", "model_checking",
+         "stateless model checking of the implementation: deviation-bounded DFS over all interleavings under a controlled cooperative scheduler",
+         "Writer ∥ CopyTo started at any moment ∥ persister/merger/purger (forced file merges, one snapshot kept; also unsafe batches so that unpersisted segments are copied), all schedules within the deviation bound. The copy must open, equal prefix state S_q on every C01 observation with acked-before ≤ q ≤ submitted-at-end, accept a write and reopen; the source must equal the full history, keep nothing scheduled for copy and be tidy at quiescence.",
+         E3NOTE, "DESIGN.md §5 C14"),
  "C01": ("E1-opseq", "model_checking",
          "explicit-state breadth-first search over operation sequences with canonical-state dedup; every transition re-executes the real index",
          "Breadth-first search over sequences of batches (single operations, multi-operation batches with several operations on one id, empty batch, delete of an absent id, internal keys) and layout operations (ForceMerge, Close+Open) up to depth 3 (quick) / 4 (thorough) for each index configuration (scorch in memory incl. forced zap v11–v16, scorch on disk with merges suppressed / aggressive / default, unsafe_batch with 2 persister workers, upsidedown over gtreap, boltdb, moss, goleveldb). Every transition replays the path on a fresh real index and compares DocCount, Document(id) for every id incl. a never-used one, match-all, doc-id and term searches and GetInternal with a map model; states are merged by (model state, segment layout signature).",
